@@ -133,7 +133,7 @@ func (c *config) rewrite(node ast.Node) (ast.Node, error) {
 		// Now we make updates
 		for _, f := range x.Fields.List {
 			if c.excludePrivate {
-				r, _ := utf8.DecodeRuneInString(f.Names[0].Name)
+				r, _ := utf8.DecodeRuneInString(fieldName(f))
 				if unicode.IsLower(r) {
 					continue
 				}
@@ -206,6 +206,33 @@ func extractTags(tag string) (*structtag.Tags, error) {
 	}
 
 	return structtag.Parse(tag)
+}
+
+// fieldName returns the name of a struct field. An embedded field has no
+// names of its own and is known by the name of its type.
+func fieldName(f *ast.Field) string {
+	if len(f.Names) > 0 {
+		return f.Names[0].Name
+	}
+	t := f.Type
+	for {
+		switch x := t.(type) {
+		case *ast.StarExpr:
+			t = x.X
+		case *ast.ParenExpr:
+			t = x.X
+		case *ast.IndexExpr:
+			t = x.X
+		case *ast.IndexListExpr:
+			t = x.X
+		case *ast.SelectorExpr:
+			return x.Sel.Name
+		case *ast.Ident:
+			return x.Name
+		default:
+			return ""
+		}
+	}
 }
 
 func plencValue(tag string) (int, error) {
